@@ -288,4 +288,38 @@ theorem normRestPy_stored (s r : Str) :
   · simp only [h, if_true]; exact normRestPy_idem s r
   · simp only [h, if_false]; rw [normRestPy_cons47, normRestPy_idem]
 
+/-- the re-assembled text consists of characters of the original and the three delimiters -/
+theorem normRestPy_sub (s r : Str) : ∀ x ∈ normRestPy s r, x ∈ r ∨ x = 59 ∨ x = 63 ∨ x = 35 := by
+  intro x hx
+  have sfx_mem : ∀ (c : Nat) (z : Str) (y : Nat), y ∈ sfx c z → y = c ∨ y ∈ z := by
+    intro c z y hy
+    unfold sfx at hy
+    by_cases hz : z = []
+    · simp [hz] at hy
+    · simp only [hz, if_false, List.mem_cons] at hy; exact hy
+  have hf1 := partition_fst_sub 35 r
+  have hf2 := partition_snd_sub 35 r
+  have hq1 := partition_fst_sub 63 (partition 35 r).1
+  have hq2 := partition_snd_sub 63 (partition 35 r).1
+  have hap : (∀ y ∈ (if usesParams s then splitParams (partition 63 (partition 35 r).1).1 else ((partition 63 (partition 35 r).1).1, [])).1,
+        y ∈ (partition 63 (partition 35 r).1).1) ∧
+      (∀ y ∈ (if usesParams s then splitParams (partition 63 (partition 35 r).1).1 else ((partition 63 (partition 35 r).1).1, [])).2,
+        y ∈ (partition 63 (partition 35 r).1).1) := by
+    by_cases hu : usesParams s = true
+    · simp only [hu, if_true]; exact splitParams_sub _
+    · simp only [hu, Bool.false_eq_true, if_false]; exact ⟨fun y hy => hy, fun y hy => by cases hy⟩
+  unfold normRestPy at hx
+  simp only [List.mem_append] at hx
+  rcases hx with ((hx | hx) | hx) | hx
+  · exact Or.inl (hf1 _ (hq1 _ (hap.1 _ hx)))
+  · rcases sfx_mem 59 _ _ hx with e | e
+    · exact Or.inr (Or.inl e)
+    · exact Or.inl (hf1 _ (hq1 _ (hap.2 _ e)))
+  · rcases sfx_mem 63 _ _ hx with e | e
+    · exact Or.inr (Or.inr (Or.inl e))
+    · exact Or.inl (hf1 _ (hq2 _ e))
+  · rcases sfx_mem 35 _ _ hx with e | e
+    · exact Or.inr (Or.inr (Or.inr e))
+    · exact Or.inl (hf2 _ e)
+
 end MitmVerif.C33
